@@ -7,6 +7,11 @@ from .angle import LorentzVector
 
 
 def get_p(M, ma, mb):
+    # python floats become float64 tensors (tf.cast alone goes through float32)
+    M, ma, mb = [
+        tf.cast(tf.convert_to_tensor(i, dtype_hint=tf.float64), tf.float64)
+        for i in (M, ma, mb)
+    ]
     m2 = M * M
     m_p = (ma + mb) ** 2
     m_m = (ma - mb) ** 2
